@@ -34,13 +34,24 @@ def ref_preimage(keytype,scheme,algs,public_field):
     return out+[0x7d]
 KT={'Ed25519':'ed25519','Rsa':'rsa','Ecdsa':'ecdsa'}; SC={'Ed25519':'ed25519','RsaSsaPssSha256':'rsassa-pss-sha256','EcdsaP256Sha256':'ecdsa-sha2-nistp256'}
 
+def synthetic_rsa_public_key():
+    """RSAPublicKey DER (modulus bytes arbitrary but fixed, e = 65537) sized so that the base64 text of its SubjectPublicKeyInfo
+    fills complete 64-character PEM lines exactly (no short last line)"""
+    for mlen in range(256,400):
+        n=[0x00]+[0xc3]+[(7*i+11)&0xff for i in range(mlen-1)]
+        body=tlv(2,n)+tlv(2,[1,0,1])
+        pk=tlv(0x30,body)
+        der=spki(tlv(6,RSA_OID)+[5,0],pk)
+        if len(base64.b64encode(bytes(der)))%64==0: return bytes(pk)
+    raise Unsupported('no synthetic RSA size found')
+
 class KeyIds(Obligation):
     """every construction path computes the id as SHA-256 of the reference canonical description; paths agree"""
     name='C12.key_id'
     hash_order='fixed'
     def __init__(self,seed=0,known=(),**kw):
         self.seed=seed
-        self.bounds={'ed25519':'32 key bytes, 3 of them free','ecdsa':'65-byte uncompressed point, 2 bytes free','rsa':'the repository\'s 2048-bit fixture (concrete: PEM/base64 of symbolic bytes is outside the models)',
+        self.bounds={'ed25519':'32 key bytes, 3 of them free','ecdsa':'65-byte uncompressed point, 2 bytes free','rsa':'the repository\'s 2048-bit fixture with both RSA-PSS schemes, and a synthetic key whose PEM body fills complete 64-character lines exactly (concrete: PEM/base64 of symbolic bytes is outside the models)',
                      'hash algorithm list':'default [sha256,sha512], absent, [sha256], unsorted [sha512,sha256], repeated [sha256,sha256], empty []','construction paths':'PublicKey::new, from_ed25519(_with_keyid_hash_algorithms), from_spki(DER), from_pem_spki(PEM) (rsa)'}
         self.witnesses=['ed25519','ecdsa','rsa']; self.seen=set()
     def setup(self,eng,tier):
@@ -58,7 +69,7 @@ class KeyIds(Obligation):
             kind,value,algs=args
             run.ghost['digests']=[]
             A=lambda: none() if algs is None else some(VecO([mk_string(x) for x in algs]))
-            typ={'ed25519':'Ed25519','ecdsa':'Ecdsa','rsa':'Rsa'}[kind]; sch={'ed25519':'Ed25519','ecdsa':'EcdsaP256Sha256','rsa':'RsaSsaPssSha256'}[kind]
+            typ={'ed25519':'Ed25519','ecdsa':'Ecdsa','rsa':'Rsa','rsa512':'Rsa','rsa_exact':'Rsa'}[kind]; sch={'ed25519':'Ed25519','ecdsa':'EcdsaP256Sha256','rsa':'RsaSsaPssSha256','rsa512':'RsaSsaPssSha512','rsa_exact':'RsaSsaPssSha256'}[kind]
             outs=[]
             outs.append(('new',eng.call_fn(run,self.new,[b.variant('KeyType',typ),b.variant('SignatureScheme',sch),A(),u8vec(list(value))])))
             if kind=='ed25519':
@@ -67,16 +78,17 @@ class KeyIds(Obligation):
             elif kind=='ecdsa': der=spki(tlv(6,EC_OID)+tlv(6,P256_OID),value)
             else: der=spki(tlv(6,RSA_OID)+[5,0],value)
             outs.append(('from_spki',eng.call_fn(run,self.from_spki,[Ref(Cell(Str(der,False))),b.variant('SignatureScheme',sch),A()])))
-            if kind=='rsa' and algs==['sha256','sha512']:
+            if kind.startswith('rsa') and algs==['sha256','sha512']:
                 pem='-----BEGIN PUBLIC KEY-----\n'+'\n'.join(base64.b64encode(bytes(der)).decode()[i:i+64] for i in range(0,400,64) if base64.b64encode(bytes(der)).decode()[i:i+64])+'\n-----END PUBLIC KEY-----\n'
                 outs.append(('from_pem_spki',eng.call_fn(run,self.from_pem,[mk_str(pem),b.variant('SignatureScheme',sch)])))
             return outs
         return go
     def mk_args(self,run):
-        kind=['ed25519','ecdsa','rsa'][run.pick(3,'kind')]
+        kind=['ed25519','ecdsa','rsa','rsa512','rsa_exact'][run.pick(5,'kind')]
         algs=[['sha256','sha512'],None,['sha256'],['sha512','sha256'],['sha256','sha256'],[]][run.pick(6,'algs')]
         if kind=='ed25519': value=[z3.BitVec('k%d'%i,8) for i in range(3)]+list(FIXTURE_ED25519_PUB[3:])
         elif kind=='ecdsa': value=[4]+[z3.BitVec('k%d'%i,8) for i in range(2)]+[9]*62
+        elif kind=='rsa_exact': value=list(synthetic_rsa_public_key())
         else:
             der=open(os.path.join(REPO,'tests/rsa/rsa-2048.spki.der'),'rb').read()
             # RSAPublicKey = content of the BIT STRING (skip outer SEQUENCE, AlgorithmIdentifier, BIT STRING header)
@@ -90,12 +102,12 @@ class KeyIds(Obligation):
             rec['outcome']='panic'; rec['viol']={'kind':'panic','known_key':None,'scenario':scn,'predicted':'panic','what':'key construction panics: '+str(out[1])}; return rec
         outs=out[1]; b=self.b
         kind=g['kind']
-        if kind=='rsa':
+        if kind.startswith('rsa'):
             der=spki(tlv(6,RSA_OID)+[5,0],g['value']); b64=base64.b64encode(bytes(der)).decode()
             pub='-----BEGIN PUBLIC KEY-----\n'+'\n'.join(b64[i:i+64] for i in range(0,len(b64),64))+'\n-----END PUBLIC KEY-----'
             public_field=list(pub.replace('\n','\\n').encode())     # JSON-escaped newline inside the description ...
             public_signed=list(pub.encode())                        # ... which the crate turns into a raw LF before hashing (as the reference does)
-            want=ref_preimage('rsa','rsassa-pss-sha256',g['algs'],public_signed)
+            want=ref_preimage('rsa','rsassa-pss-sha512' if kind=='rsa512' else 'rsassa-pss-sha256',g['algs'],public_signed)
         else:
             typ={'ed25519':'ed25519','ecdsa':'ecdsa'}[kind]; sch={'ed25519':'ed25519','ecdsa':'ecdsa-sha2-nistp256'}[kind]
             want=ref_preimage(typ,sch,g['algs'],hexs(g['value']))
@@ -114,10 +126,11 @@ class KeyIds(Obligation):
                 rec['viol']={'kind':'key_id_preimage_differs_from_reference','known_key':None,'scenario':scn2,'predicted':'keyid:'+actual,'what':'the bytes hashed into the key id differ from the reference canonical description of the key'}; return rec
         if len(run.ghost['digests'])!=len(outs):
             rec['viol']={'kind':'key_id_not_a_digest','known_key':None,'scenario':scn,'predicted':'keyid:?','what':'a construction path did not compute the key id as a digest'}; return rec
-        if kind not in self.seen: self.seen.add(kind); rec['wit'].append(kind)
+        wk='rsa' if kind.startswith('rsa') else kind
+        if wk not in self.seen: self.seen.add(wk); rec['wit'].append(wk)
         # concrete sample for native validation: the id itself
         kid=hashlib.sha256(bytes(model_value(m0,x) for x in want)).hexdigest()
-        if g['kind'] in ('ed25519','ecdsa') or g['algs']==['sha256','sha512']: rec['sample']={'scenario':scn,'expect':'keyid:'+kid}
+        rec['sample']={'scenario':scn,'expect':'keyid:'+kid}
         return rec
 
 TEMPLATES={
